@@ -192,10 +192,11 @@ func init() {
 	}, oracleNoPanic, oracleExec, oracleConserved)
 	{
 		base := props["C09"]
-		props["C09"] = propRun{rule: base.rule + "; dispatch stage: command trees with SubcommandsOptional set independently on the parser and every command, executable commands at every level, argument vector = a path of command words stopping at a random depth; expected outcome stated from the public model (ErrCommandRequired and nothing runs, or exactly one dispatch of the innermost command); bad-positional stage: a word that the positional field cannot take, reaching it as a plain word, behind the terminator, behind the first plain word under PassAfterNonOption or as an unknown option under IgnoreUnknown: an error and no CommandHandler call", run: func(c *Ctx) {
+		props["C09"] = propRun{rule: base.rule + "; dispatch stage: command trees with SubcommandsOptional set independently on the parser and every command, executable commands at every level, argument vector = a path of command words stopping at a random depth; expected outcome stated from the public model (ErrCommandRequired and nothing runs, or exactly one dispatch of the innermost command); bad-positional stage: a word that the positional field cannot take, reaching it as a plain word, behind the terminator, behind the first plain word under PassAfterNonOption or as an unknown option under IgnoreUnknown: an error and no CommandHandler call; shadowed-required stage: a required option of an outer level whose names the selected command declares again for an option of its own: still required (ErrRequired naming it, nothing runs) unless given in front of the command word", run: func(c *Ctx) {
 			base.run(c)
 			checkC09Dispatch(c, budget(c.Tier, 1200, 50000))
 			checkC09BadPositional(c, budget(c.Tier, 400, 10000))
+			checkC09Shadowed(c, budget(c.Tier, 300, 10000))
 		}}
 	}
 	parseProp("C10", caseRule+"emphasis: positional arguments of all kinds interleaved with options and the terminator", 2500, 100000, func(p *Profile) {
@@ -205,9 +206,10 @@ func init() {
 	}, oracleNoPanic, oracleConserved)
 	{
 		base := props["C10"]
-		props["C10"] = propRun{rule: base.rule + "; binding stage: numbered words interleaved with flags, before and after the terminator (option-looking words after it), on commands with positional fields of every kind and a trailing slice; where each word must land (field by declaration order, rest slice, remaining arguments) is computed from the declaration order alone", run: func(c *Ctx) {
+		props["C10"] = propRun{rule: base.rule + "; binding stage: numbered words interleaved with flags, before and after the terminator (option-looking words after it), on commands with positional fields of every kind and a trailing slice; where each word must land (field by declaration order, rest slice, remaining arguments) is computed from the declaration order alone; levels stage: positional fields on two or three levels of one command chain (parser, command, nested command): the words typed at a level fill that level's fields, the command word is taken once they are full, the entered command binds from its own first field on", run: func(c *Ctx) {
 			base.run(c)
 			checkC10Bind(c, budget(c.Tier, 1500, 60000))
+			checkC10Levels(c, budget(c.Tier, 600, 30000))
 		}}
 	}
 }
@@ -275,9 +277,9 @@ func init() {
 			runMixedCases(c, budget(c.Tier, 150, 15000), defaultProfile, []string{"parse", "iniparse", "iniwrite"}, 3, func(cr *CaseResult) { oracleNoPanic(c, cr) })
 		}}
 	props["C14"] = propRun{
-		rule: "(a) noisy / faulty / arbitrary-byte INI texts (incl. lines around the 4096-byte buffer) on generated declarations; (b) pairs: the same entries with and without blank lines, comments, surrounding blanks, CRLF; (c) one syntactically faulty line inserted at a known physical line; distinct per text",
+		rule: "(a) noisy / faulty / arbitrary-byte INI texts (incl. lines around the 4096-byte buffer) on generated declarations; (b) pairs: the same entries with and without blank lines, comments, surrounding blanks, CRLF; (c) one syntactically faulty line inserted at a known physical line; (d) long-line pairs, ignore-unknown pairs; (e) an unknown section - with entries, or with nothing under its header: last line, only comments below, the next header at once, first thing in the file - is ErrUnknownGroup, and under IgnoreUnknown changes nothing; distinct per text",
 		run: func(c *Ctx) {
-			checkC14(c, budget(c.Tier, 600, 60000))
+			checkC14(c, budget(c.Tier, 720, 72000))
 		}}
 }
 
@@ -289,9 +291,10 @@ func init() {
 			runMixedCases(c, budget(c.Tier, 150, 15000), defaultProfile, []string{"iniparse", "parse"}, 3, func(cr *CaseResult) { oracleNoPanic(c, cr) })
 		}}
 	props["C05"] = propRun{
-		rule: "declarations of 2-5 options (string, int, []string, []int), each independently with/without a program-stored value, default tag(s), env tag (variable set or unset, env-delim, optional env-namespace and delimiter), INI entries and command-line occurrences, every source carrying a distinct recognisable value; three orders (INI then CLI; as-defaults INI then CLI; CLI then as-defaults INI); expected final value computed from the ranking; distinct per case text; plus mixed operations for the model tie",
+		rule: "declarations of 2-5 options (string, int, []string, []int), each independently with/without a program-stored value, default tag(s), env tag (variable set or unset, env-delim, optional env-namespace and delimiter), INI entries and command-line occurrences, every source carrying a distinct recognisable value; three orders (INI then CLI; as-defaults INI then CLI; CLI then as-defaults INI); expected final value computed from the ranking; distinct per case text; plus mixed operations for the model tie; indirect-collections stage (library only): *[]string, **[]string, *[]int, *map[string]int and a struct whose own conversion accumulates, with any subset of stored value / default tags / environment / occurrences: exactly the elements of the highest-ranked source",
 		run: func(c *Ctx) {
 			checkC05(c, budget(c.Tier, 600, 60000))
+			checkC05Exotic(c, budget(c.Tier, 400, 20000))
 			p := defaultProfile
 			p.Env = 0.4
 			p.Defaults = 0.4
